@@ -12,62 +12,38 @@ import itertools
 from ..source import AnalysisError, norm, dotted, const_str, walk_no_nested
 from ..cfg import class_named, function_named, Flow
 from .. import peval, core
+from ..interp import Interp, Obj, Raised, Env
 from .C10 import guards_of, is_len_gt1
 
 QP = 'mindsdb_sql/planner/query_planner.py'
 PJ = 'mindsdb_sql/planner/plan_join.py'
 
 
-class Step:
-    """stand-in for the object returned by plan.add_step (truthy)"""
-
-    def __repr__(self):
-        return '<step>'
-
-
-def interpret_gate(fn, facts, catalog, gate_self):
-    """Run the gate function on abstract facts.  -> dict(result=value|None, effects=[(callee, args-as-text, kwargs-as-text)])"""
-    env = {}
-    for a in fn.args.args:
-        env[a.arg] = f'<{a.arg}>'
+def interpret_gate(ctx, fn, file, cls, facts, catalog):
+    """Run the gate function (sa/interp.py, fail closed) on abstract facts: get_query_info answers `facts`, the catalog is `catalog`, the rewrite and add_step are
+    recorded.  -> dict(result=value, effects=[(callee, args)], query=the analysed query stand-in)"""
     effects = []
+    planner = Obj('QueryPlanner', integrations=catalog, plan=Obj('QueryPlan'), query=Obj('Select', _own=True), default_namespace='mindsdb')
+    query = Obj('Select', _analysed=True)
 
-    def ev(e):
-        if isinstance(e, ast.Call):
-            f = norm(e.func)
-            if f.endswith('.get_query_info'):
-                return dict(facts)
-            if f.endswith('.add_step') or f.endswith('.prepare_integration_select') or f.split('.')[-1] in ('FetchDataframeStep',):
-                args = [norm(a) for a in e.args]
-                kw = {k.arg: norm(k.value) for k in e.keywords}
-                inner = None
-                if e.args and isinstance(e.args[0], ast.Call):
-                    inner = ev(e.args[0])
-                effects.append((f.split('.')[-1], args, kw, dict(env), inner))
-                return Step() if f.endswith('.add_step') else (('FetchDataframeStep', kw, dict(env)) if f.endswith('FetchDataframeStep') else None)
-        e2 = dict(env)
-        e2.update({f'{gate_self}.integrations': catalog})
-        return peval.ev(e, e2)
-
-    def block(stmts):
-        for s in stmts:
-            if isinstance(s, ast.Expr):
-                if isinstance(s.value, ast.Constant):
-                    continue
-                ev(s.value)
-            elif isinstance(s, ast.Assign) and len(s.targets) == 1 and isinstance(s.targets[0], ast.Name):
-                env[s.targets[0].id] = ev(s.value)
-            elif isinstance(s, ast.If):
-                r = block(s.body if ev(s.test) else s.orelse)
-                if r is not None:
-                    return r
-            elif isinstance(s, ast.Return):
-                return ('ret', ev(s.value) if s.value is not None else None)
-            else:
-                raise AnalysisError(f'gate {fn.name}: unmodelled statement `{norm(s)[:80]}`')
-        return None
-    r = block(fn.body)
-    return dict(result=r[1] if r else None, effects=effects, env=env)
+    def add_step(it, step):
+        effects.append(('add_step', [step]))
+        st = Obj('AddedStep', step=step)
+        return st
+    info = lambda it, q: {k: (set(v) if isinstance(v, set) else list(v)) for k, v in facts.items()}
+    stubs = {'FetchDataframeStep': lambda it, *a, **k: Obj('FetchDataframeStep', _pos=a, **k)}
+    for pre in ('self', 'self.planner'):
+        stubs[f'{pre}.get_query_info'] = info
+        stubs[f'{pre}.prepare_integration_select'] = lambda it, *a: effects.append(('prepare_integration_select', list(a)))
+        stubs[f'{pre}.plan.add_step'] = add_step
+    it = Interp.for_file(ctx.src, file, {}, stubs, also=(PJ, QP))
+    self_ = planner if cls == 'QueryPlanner' else Obj('PlanJoin', planner=planner)
+    try:
+        res = it.call_function(fn, [self_, query], {}, Env())
+    except Raised as r:
+        effects.append(('raise', [r.exc_name]))
+        res = f'<{r.exc_name}>'
+    return dict(result=res, effects=effects, query=query)
 
 
 def fact_space():
@@ -114,10 +90,7 @@ def run(ctx):
     for name, fn, gself, file in gates:
         ctx.need(fn is not None, f'{name} not found')
         for facts, catalog, want, label in fact_space():
-            try:
-                r = interpret_gate(fn, facts, catalog, gself)
-            except IndexError:
-                r = dict(result='<IndexError>', effects=[('raise', [], {}, {}, None)], env={})
+            r = interpret_gate(ctx, fn, file, name.split('.')[0], facts, catalog)
             accepted = bool(r['result'])
             nrows += 1
             ctx.ob('C11.gate', f'{name}:{label}', accepted == want,
@@ -250,19 +223,20 @@ def _check_effects(ctx, name, fn, r, effs, file, label):
     kinds = [e[0] for e in effs]
     ok = kinds == ['prepare_integration_select', 'add_step']
     detail = ''
+    step = None
     if ok:
         prep, add = effs
-        env = prep[3]
-        ok = len(prep[1]) == 2 and env.get(prep[1][0]) == 'int1' and prep[1][1] == qparam
-        inner = add[4]
-        if ok and inner and inner[0] == 'FetchDataframeStep':
-            kw, env2 = inner[1], inner[2]
-            ok = set(kw) == {'integration', 'query'} and env2.get(kw['integration']) == 'int1' and kw['query'] == qparam
-            detail = f'FetchDataframeStep({kw})'
+        ok = len(prep[1]) == 2 and prep[1][0] == 'int1' and prep[1][1] is r['query']
+        step = add[1][0]
+        if ok and isinstance(step, Obj) and step.kind == 'FetchDataframeStep':
+            kw = {k: v for k, v in step.attrs.items() if not k.startswith('_')}
+            ok = set(kw) == {'integration', 'query'} and kw['integration'] == 'int1' and kw['query'] is r['query'] and not step.attrs.get('_pos')
+            detail = f'FetchDataframeStep({sorted(kw)})'
         else:
             ok = False
     ctx.ob('C11.one-step', f'{name}:accept-effects', ok,
            f'{name} on [{label}]: expected exactly prepare_integration_select(<the integration>, {qparam}) then one '
            f'add_step(FetchDataframeStep(integration=<the integration>, query={qparam})); found {kinds} {detail}', file=file, line=fn.lineno)
-    ctx.ob('C11.one-step', f'{name}:returns-step', isinstance(r['result'], Step), f'{name} must return the added step (truthy) on acceptance',
-           file=file, line=fn.lineno)
+    res = r['result']
+    ctx.ob('C11.one-step', f'{name}:returns-step', isinstance(res, Obj) and res.kind == 'AddedStep' and res.attrs.get('step') is step,
+           f'{name} must return the added step (truthy) on acceptance', file=file, line=fn.lineno)
